@@ -412,7 +412,7 @@ def _frozen(ix, rep, cls, f, load, d):
                 for h in st.handlers:
                     if h.type is not None and ast.unparse(h.type) == 'KeyError':
                         # every path through the handler raises or declares
-                        ok_exc = _handler_declares_or_raises(h.body)
+                        ok_exc = _handler_declares_or_raises(h.body, key)
                 if ok_try and ok_exc:
                     return ('try: create_var_from_name(%s) succeeded => declared, and declare_var co-writes var_type_dict and var_io_dict; '
                             'except KeyError: raise or declare_var()' % key)
@@ -421,16 +421,18 @@ def _frozen(ix, rep, cls, f, load, d):
     return None
 
 
-def _handler_declares_or_raises(stmts):
+def _handler_declares_or_raises(stmts, key=None):
+    """every path through the handler raises or declares the variable *under the key that is looked up afterwards*"""
     if not stmts:
         return False
     for st in stmts:
         if isinstance(st, ast.Raise):
             return True
         if isinstance(st, ast.Expr) and isinstance(st.value, ast.Call) and D._self_call(st.value) == 'declare_var':
-            return True
+            if key is None or (st.value.args and ast.unparse(st.value.args[0]) == key):
+                return True
         if isinstance(st, ast.If):
-            if _handler_declares_or_raises(st.body) and _handler_declares_or_raises(st.orelse):
+            if _handler_declares_or_raises(st.body, key) and _handler_declares_or_raises(st.orelse, key):
                 return True
     return False
 
@@ -509,7 +511,148 @@ def check_literal_domain(ix, rep, classes, grammars, rule='R-LITERAL'):
                     else:
                         rep.fail(rule, f.module.rel, f.qual, slot, 'the grammar admits %s integer literals but the text goes straight into %s(), which rejects them with %s '
                                  '(not RTAMTException)' % ('/'.join(x.replace('Numeral', '').lower() for x in nondecimal), c.func.id, 'ValueError' if c.func.id == 'float' else 'decimal.InvalidOperation'), c.lineno)
+    # digit-group underscores: the lexer admits 1__0, 0x1__F; float() and int() accept a single underscore between digits only
+    under = sorted(r for r in ('IntegerLiteral', 'RealLiteral') if _lexer_reaches(lx, r, '_'))
+    for cls in classes:
+        for name, f in sorted(cls.methods.items()):
+            for c in ast.walk(f.node):
+                if isinstance(c, ast.Call) and isinstance(c.func, ast.Name) and c.func.id in ('float', 'int') and c.args:
+                    a = c.args[0]
+                    if not _is_literal_text(f.node, a):
+                        continue
+                    n += 1
+                    slot = '%s(%s):underscores' % (c.func.id, ast.unparse(a)[:30])
+                    if not under or _underscore_free(f.node, a, c):
+                        rep.ok(rule, f.module.rel, f.qual, slot, 'digit-group underscores are removed before the conversion' if under else 'the lexer admits no underscores', c.lineno)
+                    else:
+                        rep.fail(rule, f.module.rel, f.qual, slot, 'the lexer admits runs of underscores inside %s (1__0, 0x1__F) but the text goes into %s() as it is: ValueError, not '
+                                 'RTAMTException' % ('/'.join(under), c.func.id), c.lineno)
     return n
+
+
+def _lexer_reaches(lx, rule, ch, _seen=None):
+    _seen = _seen if _seen is not None else set()
+    if rule in _seen or rule not in lx.rules:
+        return False
+    _seen.add(rule)
+
+    def elems(es):
+        for e in es:
+            if e.kind == 'lit' and ch in e.value:
+                return True
+            if e.kind == 'set' and ch in e.value and not e.value.startswith('~'):
+                return True
+            if e.kind == 'token' and _lexer_reaches(lx, e.value, ch, _seen):
+                return True
+            if e.kind == 'group' and any(elems(a) for a in e.value):
+                return True
+        return False
+    return any(elems(alt.elems) for alt in lx.rules[rule])
+
+
+def _is_literal_text(fnode, a):
+    src = ast.unparse(a)
+    if 'getText()' in src or 'const_val_dict' in src:
+        return True
+    if isinstance(a, ast.Name):
+        if a.id in [x.arg for x in fnode.args.args] and a.id in ('text', 'val', 'value', 'literal'):
+            return True
+        for st in ast.walk(fnode):
+            if isinstance(st, ast.Assign) and isinstance(st.targets[0], ast.Name) and st.targets[0].id == a.id and \
+                    ('getText()' in ast.unparse(st.value) or 'const_val_dict' in ast.unparse(st.value) or _is_strip_of_param(fnode, st.value)):
+                return True
+    return False
+
+
+def _is_strip_of_param(fnode, v):
+    return isinstance(v, ast.Call) and isinstance(v.func, ast.Attribute) and v.func.attr == 'replace' and isinstance(v.func.value, ast.Name) \
+        and v.func.value.id in [x.arg for x in fnode.args.args]
+
+
+def _strips_underscores(e):
+    for n in ast.walk(e):
+        if isinstance(n, ast.Call) and isinstance(n.func, ast.Attribute) and n.func.attr == 'replace' and len(n.args) == 2 \
+                and isinstance(n.args[0], ast.Constant) and n.args[0].value == '_' and isinstance(n.args[1], ast.Constant) and n.args[1].value == '':
+            return True
+    return False
+
+
+def _underscore_free(fnode, a, call):
+    """the converted text has passed through .replace('_', ''): in the argument itself, or in the only assignments to the name before the call"""
+    if _strips_underscores(a):
+        return True
+    if isinstance(a, ast.Name):
+        defs = [st for st in ast.walk(fnode) if isinstance(st, ast.Assign) and any(isinstance(t, ast.Name) and t.id == a.id for t in st.targets)]
+        before = [st for st in defs if st.lineno < call.lineno]
+        if before and all(_strips_underscores(st.value) for st in before) and all(st in fnode.body or _under_text_guard(fnode, st, a.id) for st in before):
+            return True
+    return False
+
+
+def _under_text_guard(fnode, st, name):
+    """st is the body of a top-level `if hasattr(name, 'replace'):` / `if isinstance(name, str):` -- a value that is not text has no underscores"""
+    for top in fnode.body:
+        if isinstance(top, ast.If) and st in top.body and not top.orelse and isinstance(top.test, ast.Call) and isinstance(top.test.func, ast.Name) \
+                and top.test.args and isinstance(top.test.args[0], ast.Name) and top.test.args[0].id == name:
+            if top.test.func.id == 'hasattr' and len(top.test.args) == 2 and isinstance(top.test.args[1], ast.Constant) and top.test.args[1].value == 'replace':
+                return True
+            if top.test.func.id == 'isinstance':
+                return True
+    return False
+
+
+def check_dynamic(ix, rep, rule='R-EXC'):
+    """objects obtained by name at parse time (getattr on an imported module, instantiation of what it returns): AttributeError / TypeError
+    must be turned into RTAMTException"""
+    n = 0
+    for f in sorted(parse_reachable(ix).values(), key=lambda g: (g.module.rel, g.qual)):
+        dyn = {}
+        for st in ast.walk(f.node):
+            if isinstance(st, ast.Assign) and len(st.targets) == 1 and isinstance(st.targets[0], ast.Name) and isinstance(st.value, ast.Call) \
+                    and isinstance(st.value.func, ast.Name) and st.value.func.id == 'getattr':
+                dyn[st.targets[0].id] = st.value
+        for c in ast.walk(f.node):
+            if not isinstance(c, ast.Call):
+                continue
+            if isinstance(c.func, ast.Name) and c.func.id == 'getattr' and len(c.args) == 2 and not isinstance(c.args[1], ast.Constant):
+                n += 1
+                rep.analysed(f)
+                slot = 'getattr(%s)' % ast.unparse(c.args[1])[:30]
+                if _in_try_rtamt(f.node, c, ('AttributeError', 'Exception')):
+                    rep.ok(rule, f.module.rel, f.qual, slot, 'AttributeError of the look-up by name is turned into RTAMTException', c.lineno)
+                else:
+                    rep.fail(rule, f.module.rel, f.qual, slot, 'attribute looked up by a name taken from the specification outside a try that turns AttributeError into '
+                             'RTAMTException (`from os import nothing` ... )', c.lineno)
+            if isinstance(c.func, ast.Name) and c.func.id in dyn:
+                n += 1
+                rep.analysed(f)
+                slot = 'call:%s' % c.func.id
+                if _in_try_rtamt(f.node, c, ('TypeError', 'Exception')):
+                    rep.ok(rule, f.module.rel, f.qual, slot, 'TypeError of instantiating the looked-up object is turned into RTAMTException', c.lineno)
+                else:
+                    rep.fail(rule, f.module.rel, f.qual, slot, 'the object looked up by name is called outside a try that turns TypeError into RTAMTException '
+                             '(`from os import path` then `path p`: a module is not callable)', c.lineno)
+    return n
+
+
+def _in_try_rtamt(fnode, node, names):
+    """node lies in a try body with a handler for one of names whose body raises RTAMTException"""
+    parents = {}
+    for p in ast.walk(fnode):
+        for ch in ast.iter_child_nodes(p):
+            parents[id(ch)] = p
+    child = node
+    p = parents.get(id(node))
+    while p is not None:
+        if isinstance(p, ast.Try) and any(child is s for s in p.body):
+            for h in p.handlers:
+                t = ast.unparse(h.type) if h.type is not None else '*'
+                if t == '*' or any(nm in t for nm in names):
+                    if any(isinstance(r, ast.Raise) and r.exc is not None and 'RTAMTException' in ast.unparse(r.exc) for r in ast.walk(h)):
+                        return True
+        child = p
+        p = parents.get(id(p))
+    return False
 
 
 def _in_try(fnode, node, names):
